@@ -23,7 +23,8 @@ RULE = ("breadth-first closure over all histories of item assignments (single "
         "pair is one transition executed on the real object")
 ASSUMPTIONS = [
   "keys/values are small hashable atoms; behaviour does not depend on which atoms (only on equality)",
-  "StrategyDict names are strings that do not shadow the class's own attributes",
+  "StrategyDict names are strings; two of them (pop, items) are also names of dict methods - the unchanged "
+  "class treats them like any other name (item and instance attribute), which the statement requires",
   "state merging: two histories with the same canonical model state have the same futures, "
   "because every field of the real object (three internal maps, instance attributes) is "
   "compared with the model after every transition",
@@ -268,7 +269,7 @@ def run_mkd(case):
 
 
 # ---------------------------------------------------------- StrategyDict
-NAMES = ["lo", "ol", "l", "k10"]
+NAMES = ["lo", "pop", "l", "items"]      # "pop" and "items" are also dict methods: as strategy names they are attributes like any other
 
 
 def _mk_funcs():
